@@ -1,7 +1,7 @@
 (** C09 - RenderTree draws every tree faithfully; prefixes encode each node's
     position.  Only statements; proofs are [exact <lemma>]. *)
 Require Import AT.Model.Base AT.Model.Rose AT.Model.Nav AT.Model.Resolver AT.Model.Render AT.Spec.RenderSpec.
-Require AT.Proofs.RenderProofs AT.Generated.Extracted.
+Require AT.Proofs.RenderProofs AT.Proofs.RenderShape AT.Generated.Extracted.
 Import AT.Proofs.RenderProofs.
 
 (** For every tree, style, maxlevel and every childiter that selects/reorders
@@ -50,13 +50,17 @@ Theorem C09_text_lines : forall pre fill n lines,
 Proof. intros pre fill n [|l rest]; [unfold format_row; simpl; rewrite app_nil_r|]; reflexivity. Qed.
 Print Assumptions C09_text_lines.
 
-(** Kept visible, not proved: the shape of the rendered tree is a function of
-    the widths of the prefixes alone (it can be reconstructed from the text). *)
-Definition C09_reconstruct_full : Prop :=
-  forall vertical cont end_ R R', length vertical = length end_ -> length cont = length end_ -> (0 < length end_)%nat ->
-    map (fun r : row => length (fst (fst r))) (rows_spec vertical cont end_ R)
-    = map (fun r : row => length (fst (fst r))) (rows_spec vertical cont end_ R') ->
-    map (fun _ => tt) (pre_positions R []) = map (fun _ => tt) (pre_positions R' []) .
+(** the shape of the rendered tree can be reconstructed from the text alone:
+    for an equal-width style (width > 0) it is a function of the widths of the
+    row prefixes - two rendered trees whose rows have prefixes of the same
+    lengths are the same tree up to labels *)
+Theorem C09_reconstruct : forall vertical cont end_ w R R',
+  length vertical = w -> length cont = w -> length end_ = w -> (0 < w)%nat ->
+  map (fun r : row => length (fst (fst r))) (rows_spec vertical cont end_ R)
+  = map (fun r : row => length (fst (fst r))) (rows_spec vertical cont end_ R') ->
+  AT.Proofs.RenderShape.shape R = AT.Proofs.RenderShape.shape R'.
+Proof. intros v c e w R R' Hv Hc He Hw. exact (AT.Proofs.RenderShape.shape_from_widths v c e w Hv Hc He R R' Hw). Qed.
+Print Assumptions C09_reconstruct.
 
 Example C09_example :
   let t := T 0 [T 1 [T 2 []]; T 3 []] in
